@@ -325,7 +325,7 @@ def convex_sum_call():
 def roaffine_call():
     out = []
     for shape in [(), (2,)]:
-        for given in ("both", "z-only", "none"):
+        for given in ("both", "z-only", "none", "one-entry", "reversed-slice", "two-slices", "index-list"):
             def setup(c, shape=shape, given=given):
                 m, x, y, X = new_ro()
                 z = m.rvar(2)
@@ -341,8 +341,14 @@ def roaffine_call():
                 from ..harness import arr
                 zv = arr([c.fresh_real("z0"), c.fresh_real("z1")])
                 wv = c.fresh_real("w")
-                args = {"both": [z.assign(zv), w.assign(wv)], "z-only": [z.assign(zv)], "none": []}[given]
-                zfull = {"both": [zv[0], zv[1], wv], "z-only": [zv[0], zv[1], 0.0], "none": [0.0, 0.0, 0.0]}[given]
+                # realisations given for PARTS of a random variable: the other entries stay at zero
+                args = {"both": lambda: [z.assign(zv), w.assign(wv)], "z-only": lambda: [z.assign(zv)], "none": lambda: [],
+                        "one-entry": lambda: [z[1].assign(zv[1]), w.assign(wv)], "reversed-slice": lambda: [z[::-1].assign(zv)],
+                        "two-slices": lambda: [z[1:].assign(zv[1:]), z[0].assign(zv[0])],
+                        "index-list": lambda: [z[[1]].assign(zv[:1])]}[given]()
+                zfull = {"both": [zv[0], zv[1], wv], "z-only": [zv[0], zv[1], 0.0], "none": [0.0, 0.0, 0.0],
+                         "one-entry": [0.0, zv[1], wv], "reversed-slice": [zv[1], zv[0], 0.0], "two-slices": [zv[0], zv[1], 0.0],
+                         "index-list": [0.0, zv[0], 0.0]}[given]
                 return {"ra": ra, "args": args, "zfull": zfull, "xbar": xbar, "shape": shape}
 
             def expected(ns):
